@@ -44,7 +44,7 @@ func TestVerifC06(t *testing.T) {
 	env := rec.env
 	var caseIdx int64
 	ciphers := cipherNames[1:] // a cipher must be configured
-	for q := 0; q < env.pickN(96, 2400); q++ {
+	for q := 0; q < env.pickN(96, 600); q++ {
 		idx := caseIdx
 		caseIdx++
 		if !env.mine(idx) {
